@@ -1497,6 +1497,9 @@ def gen_C20(rng, n):
             # keep the atlas part proportionally: deterministic thinning
             step = len(ls) / per
             ls = [ls[int(i * step)] for i in range(per)]
+        # inputs of the recorded finding K1 (integer-operand div_rounded with n > 18) are about C04/C17, not about
+        # profile independence: leave them to those checks
+        ls = [l for l in ls if not (re.match(r"^(di|id|ii)\.divr\b", l) and int(l.split()[-1]) > 18)]
         out += ls
     # the overflow sites that relied on rustc's checks
     for c in (MAXC, -MAXC, MAXC - 1, MAXC // 2 + 1):
